@@ -48,7 +48,8 @@ CHECKS = {
        "an accepted packet. PARTIAL (C05_partial): for the IMPLEMENTATION, 'no call panics / no wrap / finite events' is decided by running "
        "every call (and the getters read after it) under catch_unwind in a debug build (overflow checks, debug assertions) with the "
        "full-digest correspondence to the model and the monitor mon_c05 (panic, frame neither delivered nor answered nor reported, no "
-       "progress); model functions are total by construction. Known finding F-05c is reported as KNOWN-FINDING.",
+       "progress); model functions are total by construction. Known finding F-05c is reported as KNOWN-FINDING; that it refutes 'every received frame is "
+       "delivered, answered or reported' on the faithful model is itself a theorem (C05_every_frame_has_an_effect_refuted).",
   ref="DESIGN.md §3 C05, §4 F-05c",
   note=CONN_NOTE + " C05 compares the complete 34-field digest, all events, return values and panics.",
   technique="Coq proofs: per-step facts + no-panic invariant over all histories of the model (walker proofs on the ownership invariant) + catch_unwind monitor + full-state differential correspondence"), "C06": dict(
@@ -214,8 +215,11 @@ CHECKS = {
        "outstanding set within the maximum; a refusal at the limit sends nothing and leaves the counter untouched. PARTIAL (C12_partial): "
        "the invariant 'counter = number of incomplete outbound exchanges of this connection incl. retransmitted ones' over all histories "
        "is decided by the monitor (ghost set of open exchanges from operations/events vs the implementation's counter and vacancy) and "
-       "the correspondence, not yet by a theorem; known finding F-12b is reported as KNOWN-FINDING.",
-  ref="DESIGN.md §3 C12, §4 F-12b",
+       "the correspondence; as a statement about ALL histories it is FALSE of the faithful model and of the code, and its refutation is "
+       "proved (C12_count_exact_refuted_*: three histories of a fresh object inside the application contract after which the vacancy is the "
+       "full maximum while a stored, accepted PUBLISH of this connection is still awaited) - these are the known findings F-12b, F-12c, "
+       "F-12d, reported as KNOWN-FINDING; any other discrepancy is a violation.",
+  ref="DESIGN.md §3 C12, §4 F-12b, §10.4 F-12c F-12d",
   note=CONN_NOTE,
   technique="Coq per-step proofs + ghost-multiset monitor + differential correspondence"),
  "C15": dict(
